@@ -216,11 +216,15 @@ def to_py(v, ctx):
         return AttrSetup(value=to_py(v['value'], ctx) if v.get('value') is not None else None,
                          units=to_py(v['units'], ctx) if v.get('units') is not None else None)
     if t == 'dict':
+        if v.get('share') and v['share'] in ctx.setdefault('shared', {}):
+            return ctx['shared'][v['share']]       # the very same dict object the program passed before
         d = {}
         if v.get('value') is not None:
             d['value'] = to_py(v['value'], ctx)
         if v.get('units') is not None:
             d['units'] = to_py(v['units'], ctx)
+        if v.get('share'):
+            ctx.setdefault('shared', {})[v['share']] = d
         return d
     if t == 'none':
         return None
@@ -588,6 +592,31 @@ def small_int(x):
     return False, 0
 
 
+def wide_index(xs):
+    """Integer index values beyond TLC's integers: the exact statistics as IEEE double images (exact below 2^53) and the signs
+    of the consecutive differences.  Only sequences whose differences are all equal or clearly non-uniform (a sign change, or
+    magnitudes a factor two apart) are offered for judgement; None otherwise."""
+    try:
+        v = []
+        for x in xs:
+            fx = float(x)
+            if fx != fx or not fx.is_integer() or abs(fx) >= 2 ** 52:
+                return None
+            v.append(int(x))
+    except Exception:  # noqa
+        return None
+    if not v:
+        return None
+    d = [b - a for a, b in zip(v, v[1:])]
+    if d and len(set(d)) > 1:
+        mags = [abs(x) for x in d]
+        clear = (min(d) < 0 < max(d)) or min(mags) == 0 or max(mags) >= 2 * min(mags)
+        if not clear:
+            return None
+    img = lambda n: blist(struct.pack('>d', float(n)))
+    return {'ok': True, 'min': img(min(v)), 'max': img(max(v)), 'dimg': [img(x) for x in d], 'dsign': [(x > 0) - (x < 0) for x in d]}
+
+
 def expected_frames(step, ctx, frm, to):
     out = []
     for fe in step.get('expect', []):
@@ -606,8 +635,9 @@ def expected_frames(step, ctx, frm, to):
                           'srcsigned': bool(present and np.issubdtype((cast or a.dtype), np.signedinteger)),
                           'dims': [int(x) for x in a.shape[1:]] if present and a.ndim > 1 else [1]})
             arrs.append((a, cast))
+        nowide = {'ok': False, 'min': [], 'max': [], 'dimg': [], 'dsign': []}
         rec = {'oid': ctx['oids'].get(fe['frame'], 0), 'chans': chans, 'rows': [], 'has_rows': False,
-               'index': {'ok': False, 'vals': []}}
+               'index': {'ok': False, 'vals': [], 'wide': nowide}}
         ok = all(c['present'] and c['code'] and 1 <= c['ndim'] <= 2 for c in chans) and len({c['rows'] for c in chans}) == 1
         if ok:
             n = chans[0]['rows']
@@ -619,7 +649,9 @@ def expected_frames(step, ctx, frm, to):
                 if a0.ndim == 1:
                     vals = [small_int((a0[i] if cast0 is None else a0[i].astype(cast0))) for i in range(frm, t)]
                     if all(v[0] for v in vals):
-                        rec['index'] = {'ok': True, 'vals': [slimbs(v[1]) for v in vals]}
+                        rec['index'] = {'ok': True, 'vals': [slimbs(v[1]) for v in vals], 'wide': nowide}
+                    else:
+                        rec['index']['wide'] = wide_index([(a0[i] if cast0 is None else a0[i].astype(cast0)) for i in range(frm, t)]) or nowide
         out.append(rec)
     return out
 
